@@ -853,7 +853,7 @@ NAN, INF = float("nan"), float("inf")
 
 
 def specials_cases():
-    """IEEE specials are outside the models: implementation only, oracle = invariant + atomicity"""
+    """IEEE specials and non-dyadic finite floats are outside the models: implementation only, oracle = invariant + atomicity"""
     led_ops = [["set_brightness", NAN], ["set_brightness", INF], ["set_brightness", -INF], ["set_brightness", -0.0],
                ["blink", NAN, 1], ["blink", INF, 1], ["blink", 5, INF], ["blink", 5, NAN], ["blink", -INF, 1],
                ["fade_in", NAN, 1], ["fade_in", INF, 1], ["fade_in", 5, NAN], ["fade_in", 5, INF], ["fade_in", -INF, 1],
@@ -862,6 +862,19 @@ def specials_cases():
     rgb_ops = [["set_color", NAN, 0, 0], ["set_color", 0, INF, 0], ["on", -INF], ["fade", 1, 2, 3, NAN, 2], ["fade", 1, 2, 3, INF, 2],
                ["fade", 1, 2, 3, 10, NAN], ["fade", 1, 2, 3, 10, INF], ["fade", NAN, 2, 3, 10, 2], ["blink", 1, 2, 3, NAN, 1],
                ["blink", 1, 2, 3, INF, 1], ["blink", 1, 2, 3, 1, NAN], ["blink", 1, 2, 3, 1, INF], ["blink", 1, 2, 3, 1, -INF]]
+    # finite floats that are NOT short dyadic numbers (the exact-rational model and the float loop of fade_in/fade_out may
+    # legitimately take a different number of steps on them, so they are not compared with the model): brightness arguments
+    # one ulp around 0 and 255, non-dyadic fade steps (the running value current + step accumulates rounding), non-dyadic
+    # durations of RGBLed.fade - implementation only, oracle = the EXACT invariant (0 <= brightness <= 255, ints; on iff > 0;
+    # channels 0..255) after the call + atomicity of failing calls
+    led_ops += [["set_brightness", 255.00000000000003], ["set_brightness", 254.99999999999997], ["set_brightness", -5e-324],
+                ["set_brightness", 5e-324], ["set_brightness", -1e-17], ["set_brightness", 0.9999999999999999],
+                ["fade_in", 0.1, 0], ["fade_in", 0.3, 0], ["fade_out", 0.7, 0], ["fade_out", 0.1, 0], ["fade_in", 51.00000000000001, 0],
+                ["fade_in", 84.99999999999999, 0], ["fade_out", 254.99999999999997, 0], ["fade_in", 1e-3 + 127.5, 0.1],
+                ["flash_pattern", [0.1, 254.99999999999997, 255.00000000000003, 1], 0], ["flash_pattern", [5e-324, 0.9999999999999999, 255.0], 0.1],
+                ["blink", 0.1, 3], ["blink", 1 / 3, 2]]
+    rgb_ops += [["fade", 1, 2, 3, 0.1, 7], ["fade", 255, 0, 128, 1 / 3, 3], ["fade", 0, 255, 1, 0.7, 50], ["fade", 254, 1, 255, 1e-3, 2],
+                ["blink", 1, 2, 3, 2, 0.1], ["blink", 255, 255, 255, 3, 1 / 3]]
     cases = []
     for pre in ([], [["set_brightness", 128]], [["on"]]):
         cases += [["Led", [], pre + [o, ["get_brightness"]]] for o in led_ops]
